@@ -23,7 +23,7 @@ macro_rules! stub_property {
 
 stub_property!(c01, C01, "C01");
 stub_property!(c02, C02, "C02");
-stub_property!(c03, C03, "C03");
+pub mod c03;
 pub mod c04;
 pub mod c05;
 stub_property!(c06, C06, "C06");
